@@ -7,7 +7,7 @@ wt=${SEED_WT:-/tmp/wt/$id}; out=${SEED_OUT:-/tmp/wt-out/$id}; res=$out/verify$n.
 export CARGO_NET_OFFLINE=true CARGO_TARGET_DIR=/tmp/wt/target-shared
 : > $res
 cd $wt || exit 2
-git checkout -q -- . ; git clean -fdq -e target; sleep 0.2; find src -name "*.rs" -newermt "-10 minutes" -exec touch {} + 2>/dev/null
+git checkout -q -- . ; git clean -fdq -e target; sleep 0.2; find src tests -name "*.rs" -exec touch {} + 2>/dev/null   # the shared target dir may hold ANOTHER worktree's (changed) build of the same package: cargo's dep-info is relative to the package root, so only fresh mtimes force a rebuild
 demo=tests/seed_demo_${lid}_$n.rs
 cp $out/demo$n.rs $demo
 cargo test --offline --test seed_demo_${lid}_$n > $out/v${n}_demo_base.log 2>&1; echo "demo_on_unchanged_rc=$?" >> $res
